@@ -30,7 +30,7 @@ PLAN = {
     "C13": [("prod", 30000, 1500000, []), ("san", 400, 8000, [])],
     "C15": [("prod", 80000, 4000000, []), ("san", 4000, 80000, [])],
     "C16": [("prod", 100000, 5000000, []), ("san", 3000, 60000, ["--no-baseline"])],
-    "C17": [("prod", 40000, 2000000, []), ("san", 2500, 50000, [])],
+    "C17": [("prod", 32000, 2000000, []), ("san", 2500, 50000, [])],
     "C18": [("trng-getrandom", 20000, 1000000, []), ("trng-getentropy", 20000, 1000000, []), ("trng-syscall", 20000, 1000000, []),
             ("trng-devurandom", 20000, 1000000, []), ("prod", 10000, 300000, []), ("san", 2500, 50000, [])],
     "C19": [("prod", 40000, 2500000, []), ("hook", 15000, 700000, []), ("san", 2500, 60000, [])],
